@@ -74,3 +74,37 @@ TRUSTED_B64 = "base64.b64encode: uninterpreted injective function with output ov
 ASSUMED_GET_CAPABILITIES = ("ASSUMED contract of Client.__get_capabilities (not verified: its body splits lines of symbolic "
                             "text): stores each announced known capability with its value, keeps the others, returns "
                             "False on NO without changes")
+
+
+def table_replay(cmd_name, drop_ext=None):
+    """find a script using `cmd_name` on which the real parser and the reference (frozen table) disagree; used as the native
+    replay of table obligations (C01.T / C07.T).  -> dict(confirmed, outcome)"""
+    runner.get_index()
+    from contracts import tables_frozen as frozen
+    from bounded import sieve_gen as g, sieve_ref as ref, parser_bounded as pb
+    spec = frozen.COMMANDS.get(cmd_name)
+    if spec is None:
+        return {"confirmed": False, "outcome": "command not in the frozen table"}
+    caps = [c for c in g.ALL_CAPS if c != drop_ext]
+    head = [b"require"] + g._list_tokens([b'"%s"' % c.encode() for c in caps]) + [b";"]
+    for v in g.command_variants(cmd_name, spec) + g.command_variants(cmd_name, spec, upper=True):
+        if spec["kind"] == "test":
+            tp = [p for p in spec["positional"] if p["type"] in ("test", "testlist")]
+            inner = [] if not tp else ([b"true"] if tp[0]["type"] == "test" else [b"(", b"true", b")"])
+            toks = head + [b"if", cmd_name.encode()] + v + inner + [b"{", b"stop", b";", b"}"]
+        elif spec["block"]:
+            pre = [b"if", b"true", b"{", b"stop", b";", b"}"] if spec["follows"] else []
+            tst = [b"true"] if any(p["type"] == "test" for p in spec["positional"]) else []
+            toks = head + pre + [cmd_name.encode()] + v + tst + [b"{", b"stop", b";", b"}"]
+        else:
+            toks = head + [cmd_name.encode()] + v + [b";"]
+        data = b" ".join(toks)
+        r = pb.real_parse(data)
+        rv = ref.verdict(data)
+        if rv.status == "valid" and r["verdict"] is not True:
+            if cmd_name == "keep" or any(p["optional"] for p in spec["positional"]):
+                continue
+            return {"confirmed": True, "outcome": "valid by the RFC table but rejected: %s" % r.get("error"), "script": data.decode("latin-1")}
+        if rv.status == "invalid" and r["verdict"] is True:
+            return {"confirmed": True, "outcome": "invalid by the RFC table (%s) but accepted" % rv.reason, "script": data.decode("latin-1")}
+    return {"confirmed": False, "outcome": "no generated use of %s shows the difference" % cmd_name}
